@@ -1,3 +1,4 @@
+import Mrpro.Lemmas.SrcSignalL
 import Mrpro.Model.Signal
 import Mrpro.Lemmas.SignalL
 /-! # C17 — signal models match their closed forms; constraints are invertible and bounded
@@ -119,5 +120,20 @@ theorem wasabiti_hasDerivAt_rb1 (b0 rb1 t1 offset trec tp b1nom gamma : ℝ)
 theorem wasabiti_hasDerivAt_t1 (b0 rb1 t1 offset trec tp b1nom gamma : ℝ) (h : t1 ≠ 0) :
     HasDerivAt (fun t => wasabiti b0 rb1 t offset trec tp b1nom gamma) (wasabiti_dt1 b0 rb1 t1 offset trec tp b1nom gamma) t1 :=
   M.wasabiti_hasDerivAt_t1 b0 rb1 t1 offset trec tp b1nom gamma h
+
+/-! ### Tie to the source: the `forward` of every signal model, translated from `/repo` on this run (element-wise), is the
+model function the theorems above are about — for all real arguments -/
+theorem src_invRec (m0 t1 ti : ℝ) : M.Src.sig_invRec m0 t1 ti = invRec m0 t1 ti := M.SrcL.sig_invRec_eq m0 t1 ti
+theorem src_satRec (m0 t1 ti : ℝ) : M.Src.sig_satRec m0 t1 ti = satRec m0 t1 ti := M.SrcL.sig_satRec_eq m0 t1 ti
+theorem src_monoExp (m0 td t : ℝ) : M.Src.sig_monoExp m0 td t = monoExp m0 td t := M.SrcL.sig_monoExp_eq m0 td t
+theorem src_molli (a c t1 ti : ℝ) : M.Src.sig_molli a c t1 ti = molli a c t1 ti := M.SrcL.sig_molli_eq a c t1 ti
+theorem src_tss (m0 t1 alpha ts tr scal delay : ℝ) :
+    M.Src.sig_tss m0 t1 alpha ts tr scal delay = tss m0 t1 alpha ts tr scal delay := M.SrcL.sig_tss_eq m0 t1 alpha ts tr scal delay
+theorem src_wasabi (b0 rb1 c d offset tp b1nom gamma : ℝ) :
+    M.Src.sig_wasabi b0 rb1 c d offset tp b1nom gamma = wasabi b0 rb1 c d offset tp b1nom gamma :=
+  M.SrcL.sig_wasabi_eq b0 rb1 c d offset tp b1nom gamma
+theorem src_wasabiti (b0 rb1 t1 offset trec tp b1nom gamma : ℝ) :
+    M.Src.sig_wasabiti b0 rb1 t1 offset trec tp b1nom gamma = wasabiti b0 rb1 t1 offset trec tp b1nom gamma :=
+  M.SrcL.sig_wasabiti_eq b0 rb1 t1 offset trec tp b1nom gamma
 
 end C17
